@@ -246,7 +246,7 @@ func genCase(r *lib.Rng, id int64, tier string) Case {
 		// an edge on (or next to) the first searchable sample: index npre of the stream retained at configuration
 		at := c.Npre + r.Pick([]int{0, 0, 0, 1, 2, -1})
 		if r.Chance(1, 2) {
-			b.ramp(at, r.Range(3, 2*c.Nsamp), thr+r.Range(0, thr), r.Range(0, c.Nsamp))
+			b.ramp(at, r.Range(c.Nmono+2, c.Nmono+2+2*c.Nsamp), thr+r.Range(0, thr), r.Range(0, c.Nsamp))
 		} else {
 			b.pulse(at, amp(), r.Range(1, 4), r.Range(2, 2*c.Nsamp))
 		}
@@ -398,6 +398,99 @@ func genStorm(r *lib.Rng, id int64, tier string) Case {
 	return c
 }
 
+// genFirstMin: the minima the validity rule allows (refinement on: npre = 4, nsamp-npre = 4; off: npre = 3,
+// nsamp-npre = 1; nmonotone = nsamp-npre) with a QUALIFYING edge exactly on (or one beside) the first searchable
+// sample = index npre of the stream the channel retains when edge-multi is (re)configured: a new stream, a few
+// retained samples, or a long pre phase followed by ConfigureTrigger (triggers off before / edge-multi on with the
+// same / other parameters) or by ConfigurePulseLengths alone.
+func genFirstMin(r *lib.Rng, id int64) Case {
+	c := Case{ID: id, Kind: "firstmin"}
+	c.ZT = r.Chance(3, 4)
+	la := 0
+	if c.ZT {
+		c.Npre = r.Pick([]int{4, 4, 5})
+		la = r.Pick([]int{4, 4, 5, 8})
+	} else {
+		c.Npre = r.Pick([]int{3, 3, 4})
+		la = r.Pick([]int{1, 1, 2, 4})
+	}
+	c.Nsamp = c.Npre + la
+	c.Nmono = la
+	if r.Chance(1, 3) {
+		c.Nmono = r.Range(1, la)
+	}
+	c.Mode = r.Intn(3)
+	c.Thr = int32(r.Pick([]int{20, 100, 300, -20, -100, -300}))
+	c.Signed = r.Chance(1, 5)
+	c.F0 = int64(r.Pick([]int{0, 0, 7, 1234, 5000000}))
+	sign, base := 1, r.Range(1000, 8000)
+	if c.Thr < 1 {
+		sign, base = -1, r.Range(40000, 60000)
+	}
+	thr := abs(int(c.Thr))
+	// what is retained at the reconfiguration
+	npreLen, nsamp0 := 0, c.Nsamp
+	switch r.Intn(5) {
+	case 0:
+	case 1:
+		npreLen = r.Range(1, 10)
+	case 2:
+		npreLen = -1
+	case 3:
+		npreLen = -1
+		c.PreMode = r.Range(1, 2)
+	default:
+		npreLen = -1
+		c.PreMode = 3
+		c.PreNpre = r.Pick([]int{5, 6, 9})
+		c.PreNsamp = c.PreNpre + 12
+		nsamp0 = c.PreNsamp
+	}
+	k0 := 2*nsamp0 + 10
+	if npreLen < 0 {
+		npreLen = k0 + r.Range(-6, 40)
+	}
+	retained := npreLen
+	if retained > k0 {
+		retained = k0
+	}
+	at := npreLen - retained + c.Npre + r.Pick([]int{0, 0, 0, 0, 0, 1, -1})
+	n := r.Range(3*c.Nsamp, 8*c.Nsamp)
+	if at+la+8 > npreLen+n {
+		n = at + la + 8 - npreLen + c.Nsamp
+	}
+	b := &builder{r: r, v: make([]int, npreLen+n), sign: sign}
+	for i := range b.v {
+		b.v[i] = base
+	}
+	if c.PreMode != 0 && at > 3*nsamp0 { // something for the pre phase to find and leave in its search state
+		b.pulse(r.Range(nsamp0, at-2*nsamp0), thr*4, 2, r.Range(2, nsamp0))
+	}
+	if r.Chance(2, 3) {
+		b.ramp(at, la+r.Range(2, 6), thr+r.Range(0, thr), r.Range(0, c.Nsamp))
+	} else {
+		b.pulse(at, thr*(la+2)+r.Range(0, thr), la+2, r.Range(2, 2*c.Nsamp))
+	}
+	if r.Chance(1, 2) {
+		b.pulse(at+r.Range(la+3, 3*c.Nsamp), thr*r.Range(2, 6), r.Range(1, 2), r.Range(2, c.Nsamp))
+	}
+	all := b.done()
+	c.Pre, c.Data = all[:npreLen], all[npreLen:]
+	if npreLen > 0 {
+		c.PreCut = []int{npreLen}
+		if npreLen > 20 && r.Chance(1, 2) {
+			k := r.Range(1, npreLen-1)
+			c.PreCut = []int{k, npreLen - k}
+		}
+	}
+	var marks []int
+	for _, m := range b.marks {
+		marks = append(marks, m-npreLen)
+	}
+	c.Ops = partition(r, len(c.Data), marks, c.Npre, c.Nsamp)
+	return c
+}
+
 // malformed: configurations EMTState.valid refuses, zero-length deliveries
 func genMalformed(r *lib.Rng, id int64) Case {
 	c := genCase(r, id, "quick")
@@ -464,6 +557,20 @@ func corpus() []Case {
 	cs = append(cs, Case{Npre: 4, Nsamp: 10, Thr: 100, Nmono: 1, Mode: 1, Also: 7, AlsoLevel: 1500, Data: append(pl[60:], flatRamp(40, 10, 300, 3, 2800)...), Ops: []int{33, 33, 34}, Kind: "corpus"})
 	cs = append(cs, Case{Npre: 6, Nsamp: 16, Thr: 100, Nmono: 1, Mode: 0, ZT: true, Also: 5, AlsoLevel: 1500, Data: w, Ops: []int{40, 40}, Kind: "corpus"})
 	cs = append(cs, Case{Npre: 3, Nsamp: 6, Thr: 1, Nmono: 1, Mode: 2, Also: 3, AlsoLevel: 5, Data: p2(), Ops: []int{10, 22}, Kind: "corpus"})
+	// minima of the validity rule (npre 4, nsamp-npre 4, nmonotone 4), qualifying ramp exactly on the first
+	// searchable sample: new stream; 3 retained samples; after ConfigureTrigger with edge-multi already on;
+	// after ConfigureTrigger from triggers off; after ConfigurePulseLengths alone; falling
+	m := flatRamp(70, 4, 150, 7, 1000)
+	cs = append(cs, Case{Npre: 4, Nsamp: 8, Thr: 100, Nmono: 4, Mode: 0, ZT: true, Data: m, Ops: []int{30, 40}, Kind: "corpus"})
+	cs = append(cs, Case{Npre: 4, Nsamp: 8, Thr: 100, Nmono: 4, Mode: 1, ZT: true, Pre: m[:3], PreCut: []int{3}, Data: m[3:], Ops: []int{6, 61}, Kind: "corpus"})
+	lm := append(flatRamp(44, 44, 0, 0, 1000), m...) // retained at reconfiguration: the last 26 of 66 samples -> index 40 + 4
+	cs = append(cs, Case{Npre: 4, Nsamp: 8, Thr: 100, Nmono: 4, Mode: 2, ZT: true, PreMode: 1, Pre: lm[:66], PreCut: []int{20, 46}, Data: lm[66:], Ops: []int{24, 24}, Kind: "corpus"})
+	cs = append(cs, Case{Npre: 4, Nsamp: 8, Thr: 100, Nmono: 4, Mode: 0, ZT: true, PreMode: 0, Pre: lm[:66], PreCut: []int{66}, Data: lm[66:], Ops: []int{48}, Kind: "corpus"})
+	lm3 := append(flatRamp(56, 56, 0, 0, 1000), m...) // pre lengths 6/18: 46 retained of 86 -> index 40 + 4... see below
+	cs = append(cs, Case{Npre: 4, Nsamp: 8, Thr: 100, Nmono: 4, Mode: 0, ZT: true, PreMode: 3, PreNpre: 6, PreNsamp: 18, Pre: lm3[:102], PreCut: []int{60, 42}, Data: lm3[102:], Ops: []int{24}, Kind: "corpus"})
+	fm := flatRamp(70, 4, -150, 7, 50000)
+	cs = append(cs, Case{Npre: 4, Nsamp: 8, Thr: -100, Nmono: 4, Mode: 1, ZT: true, F0: 999, Data: fm, Ops: []int{5, 65}, Kind: "corpus"})
+	cs = append(cs, Case{Npre: 3, Nsamp: 4, Thr: 100, Nmono: 1, Mode: 0, Data: flatRamp(40, 3, 150, 3, 1000), Ops: []int{4, 36}, Kind: "corpus"})
 	// the repository's own examples, scaled to legal lengths: two pulses 3 apart, all three modes, cut between them
 	p := []int{0, 0, 0, 0, 0, 0, 0, 0, 10, 20, 0, 10, 20, 0, 0, 0, 0, 0, 0, 0, 0, 0, 0, 0, 0, 0, 0, 0, 0, 0, 0, 0}
 	for mode := 0; mode < 3; mode++ {
@@ -492,6 +599,14 @@ func gen(seed uint64, tier string) []interface{} {
 		c.ID = id
 		id++
 		out = append(out, c)
+	}
+	nmin := 30
+	if tier == "thorough" {
+		nmin = 300
+	}
+	for i := 0; i < nmin; i++ {
+		out = append(out, genFirstMin(r.Fork(), id))
+		id++
 	}
 	nstorm := 3
 	if tier == "thorough" {
